@@ -182,6 +182,10 @@ def tt_dimscheck(  # noqa: PLR0912
             "Negative dims aren't allowed in pyttb, see exclude_dims argument instead"
         )
 
+    # A dimension can only be selected once
+    if np.unique(dim_array).size != dim_array.size:
+        raise ValueError(f"Dims must not be repeated but received {dim_array}")
+
     # Save dimensions of dims
     P = len(dim_array)
 
